@@ -82,6 +82,35 @@ def gen_data_tree(rng, depth, preserve_rate=0.05):
     return ("tag", "", name, attrs, kids)
 
 
+# ---------------------------------------------------------------------------------------------- deep chains
+def gen_deep_chain(rng, depth, data_style=True):
+    """a chain of `depth` nested elements (conventional layout when data_style) whose innermost levels hold a text
+    leaf, an element with attributes (aligned attribute lines), a comment and a PI: nodes sit depth+1 levels below
+    the root, and sub-trees started at various depths leave fewer levels below them"""
+    sep = (lambda: ("text", rng.choice(["\n", "\n  ", " "]))) if data_style else None
+
+    def wrap_kids(kids):
+        if not data_style:
+            return kids
+        out = []
+        for k in kids:
+            out += [sep(), k]
+        return out + [sep()]
+    inner = [("tag", "", "leaf", [], [("text", " ".join(gen_words(rng, 1, 4, SHORT)))]),
+             ("tag", "", "e", [("", "id", "1"), ("", "long-name", "v")], []),
+             ("comment", "c"), ("pi", "t", "x")]
+    rng.shuffle(inner)
+    t = ("tag", "", "n%d" % depth, [], wrap_kids(inner))
+    for i in range(depth - 1, 0, -1):
+        extra = [gen_misc(rng)] if rng.random() < 0.3 else []
+        attrs = [("", "k", "v"), ("", "n", "2")] if rng.random() < 0.3 else []
+        kids = [t] + extra if rng.random() < 0.5 else extra + [t]
+        if not data_style and rng.random() < 0.5:
+            kids = [("text", "aa bb ")] + kids + [("text", " cc")]
+        t = ("tag", "", "n%d" % i, attrs, wrap_kids(kids))
+    return t
+
+
 # ---------------------------------------------------------------------------------------------- mixed content
 def gen_text(rng, width_hint=None):
     """text with optional whitespace at the ends; lengths are biased to end words around width_hint"""
